@@ -36,6 +36,11 @@ ASSUMPTIONS = [
 
 
 def state_for(rng, edited):
+    if not edited and rng.random() < 0.12:
+        # movie longer than one storage chunk (64 frames) of the exported label array
+        cfg = gen.big_config(rng, seg=rng.random() < 0.8)
+        tracks, _, _ = gen.build_tracks(cfg)
+        return cfg, tracks, []
     cfg = gen.random_config(rng, p3d=0.2)
     if rng.random() < 0.3:
         cfg.extra = tuple(k for k in cfg.extra)  # keep
@@ -57,6 +62,7 @@ def snapshot(tracks, keys=None):
         "time": {int(n): tracks.get_time(n) for n in g.nodes},
         "pos": {int(n): norm(tracks.get_position(n)) for n in g.nodes},
         "tid": {int(n): tracks.get_track_id(n) for n in g.nodes},
+        "lid": {int(n): tracks.get_lineage_id(n) for n in g.nodes},
     }
 
 
@@ -93,6 +99,7 @@ def route_csv(tracks, wd, display):
     a = snapshot(t)
     if not a["nodes"]:
         return None
+    map_lineage = False
     out = wd / "x.csv"
     axes = ["z", "y", "x"] if t.ndim == 4 else ["y", "x"]
     f = t.features
@@ -107,6 +114,10 @@ def route_csv(tracks, wd, display):
         else:
             nm = {"id": "ID", "parent_id": "Parent ID", "time": "Time",
                   "track_id": "Tracklet ID"}
+            lname = f[f.lineage_key].get("display_name") if f.lineage_key in f else None
+            if lname and lname in df.columns:
+                nm["lineage_id"] = lname
+                map_lineage = True
             pk = f.position_key
             if isinstance(pk, list):
                 nm["pos"] = list(pk)
@@ -121,6 +132,12 @@ def route_csv(tracks, wd, display):
     b = snapshot(b_tracks, keys=[])
     route = "csv-display" if display else "csv"
     probs = cmp_basic(a, b, route)
+    if map_lineage and not probs and lineage_labels_components(t):
+        for n in a["nodes"]:
+            if a["lid"][n] != b["lid"][n]:
+                probs.append((f"{route}-lineage-id", f"node {n} lineage id {a['lid'][n]} -> "
+                              f"{b['lid'][n]} (mapped, valid)", f"C14/{route}/lineage-id"))
+                break
     for k in loaded:
         for n in a["nodes"]:
             x = a["nodes"][n].get(k)
@@ -132,6 +149,32 @@ def route_csv(tracks, wd, display):
                               f"C14/{route}/feature/{k}"))
                 break
     return probs
+
+
+def centroid_outside_own_mask(t) -> bool:
+    """Is there a node in the tracks that were written whose (scaled-back, truncated)
+    position does not carry the node's own label? Only then may the importer's sample
+    check legitimately refuse the store."""
+    seg = t.segmentation
+    if seg is None:
+        return False
+    scale = [1.0] * seg.ndim if t.scale is None else list(t.scale)
+    for n in t.graph.nodes:
+        pos = t.get_position(n)
+        coord = [int(t.get_time(n))] + list(pos)
+        px = tuple(int(c / s) for c, s in zip(coord, scale))
+        if any(not (0 <= c < d) for c, d in zip(px, seg.shape)) or seg[px] != n:
+            return True
+    return False
+
+
+def lineage_labels_components(t) -> bool:
+    """True if the lineage ids of the state that is written are a valid labelling (own
+    union-find); only then is the importer obliged to keep them."""
+    nodes = [int(n) for n in t.graph.nodes]
+    ref = O.component_partition(nodes, [(int(u), int(v)) for u, v in t.graph.edges])
+    labels = {n: t.get_lineage_id(n) for n in nodes}
+    return all(v is not None for v in labels.values()) and O.label_partition(labels) == ref
 
 
 def route_geff(tracks, wd):
@@ -169,11 +212,22 @@ def route_geff(tracks, wd):
                                         scale=None if t.scale is None else list(t.scale),
                                         node_features=loaded or None)
         except ValueError as e:
-            if "Error testing seg id" in str(e) or "out of bounds" in str(e):
+            if ("Error testing seg id" in str(e) or "out of bounds" in str(e)) and \
+                    centroid_outside_own_mask(t):
+                # refused by design: the importer samples a node's centroid pixel, and in
+                # the state that was written some node's centroid lies outside its mask
                 return "sample-check"
             raise
     b = snapshot(b_tracks, keys=[])
     probs = cmp_basic(a, b, "geff")
+    if not probs and lineage_labels_components(t):
+        # lineage_id is in the mapping, so it is loaded: the ids must come back as written
+        for n in a["nodes"]:
+            if a["lid"][n] != b["lid"][n]:
+                probs.append(("geff-lineage-id", f"node {n} lineage id {a['lid'][n]} -> "
+                              f"{b['lid'][n]} (mapped, valid, must be loaded as written)",
+                              "C14/geff/lineage-id"))
+                break
     lk = f.lineage_key
     for n in a["nodes"]:
         for k in loaded:
@@ -212,6 +266,9 @@ def route_internal(tracks, wd):
     b = snapshot(b_tracks)
     if a["nodes"]:
         probs += cmp_basic(a, b, "internal")
+        if not probs and a["lid"] != b["lid"]:
+            probs.append(("internal-lineage-id", "lineage ids differ after save/load",
+                          "C14/internal/lineage-id"))
     if not probs and a["nodes"] != b["nodes"]:
         for n in a["nodes"]:
             if a["nodes"][n] != b["nodes"][n]:
@@ -293,6 +350,12 @@ def run_shard(spec):
             if edited:
                 acc["counters"]["states-after-editing"] = \
                     acc["counters"].get("states-after-editing", 0) + 1
+            if cfg.big:
+                acc["counters"]["states-longer-than-one-chunk"] = \
+                    acc["counters"].get("states-longer-than-one-chunk", 0) + 1
+            if 0 in tracks.graph and tracks.graph.out_degree(0) > 0:
+                acc["counters"]["states-where-node-0-is-a-parent"] = \
+                    acc["counters"].get("states-where-node-0-is-a-parent", 0) + 1
             run_case(cfg, tracks, wd, acc, edited, {"config": cfg.to_json(), "ops": ops})
             if not acc["samples"] and ops:
                 acc["samples"].append({"config": cfg.tag(), "ops_before_export": ops[:5],
@@ -306,7 +369,8 @@ def run_shard(spec):
 
 def floors(tier):
     return {"states": 250, "states-after-editing": 120, "route-csv": 200,
-            "route-csv-display": 200, "route-geff": 150, "route-internal": 250}
+            "route-csv-display": 200, "route-geff": 150, "route-internal": 250,
+            "states-longer-than-one-chunk": 10, "states-where-node-0-is-a-parent": 5}
 
 
 def replay(doc):
